@@ -1,4 +1,140 @@
-import SdModel.Model.Derive
+import SdModel.Lemmas.DeriveIdx
+
+/-!
+# C15 — generated setters: the emitted diffs replay to the same state
+
+`Derive.setterCall fields x i v` models calling the generated setter of field `i` (`FieldSem.setter` is the body per
+template: compare, build the entry from old to new, assign).  `none` = no setter exists (skipped field, or the
+key-and-value recursive map, for which the macro generates none).
+-/
 namespace C15
-theorem placeholder : True := trivial
+open Derive
+
+/-- each setter call stores exactly the given value in its field and touches no other field -/
+theorem setter_stores (fields : Fields) (x : Val) (i : Nat) (v : Val) (ret : Option Entry) (x' : Val)
+    (h : setterCall fields x i v = some (ret, x')) :
+    ∃ vs, x = .strct vs ∧ x' = .strct (setAt vs i v) ∧ (∀ j, j ≠ i → valAt (setAt vs i v) j = valAt vs j) ∧
+      (valAt vs i).isSome ∧ valAt (setAt vs i v) i = some v := by
+  unfold setterCall at h
+  split at h
+  · rename_i vs F _
+    cases hold : valAt vs i with
+    | none => simp [hold] at h
+    | some old =>
+      simp only [hold] at h
+      cases hs : F.setter old v with
+      | none => simp [hs] at h
+      | some r =>
+        simp only [hs, Option.some.injEq, Prod.mk.injEq] at h
+        exact ⟨vs, rfl, h.2.symm, fun j hj => valAt_setAt_ne vs i j v hj, by rw [hold]; rfl, valAt_setAt_same vs i v old hold⟩
+  · cases h
+
+/-- the returned entry IS the entry a full diff has for that field (same position, same payload); it is absent iff
+the field's strategy sees no change -/
+theorem setter_returns_diff_entry (fts : FieldTys) (vs : Vals) (hw : SWT (relFields fts) vs) (i : Nat) (v : Val)
+    (ret : Option Entry) (x' : Val) (h : setterCall (semFields fts) (.strct vs) i v = some (ret, x')) :
+    ∃ F R old, (relFields fts)[i]? = some (false, F, R) ∧ valAt vs i = some old ∧
+      ret = (F.diff old v).map (fun p => (i, p)) ∧ (R.wt v → (ret = none ↔ R.same old v)) := by
+  rw [← fieldsOf_rel] at h
+  unfold setterCall at h
+  rw [fieldAt_fieldsOf] at h
+  cases hf : (relFields fts)[i]? with
+  | none => simp [hf] at h
+  | some e =>
+    obtain ⟨sk, F, R⟩ := e
+    obtain ⟨old, ho, hwo⟩ := swt_at _ vs hw i _ hf
+    cases sk with
+    | true => simp [hf] at h
+    | false =>
+      simp only [hf, Option.map_some, ho] at h
+      cases hs : F.setter old v with
+      | none => simp [hs] at h
+      | some r =>
+        simp only [hs, Option.some.injEq, Prod.mk.injEq] at h
+        have hr : r = F.diff old v := setter_ok_fields fts _ (List.mem_of_getElem? hf) old v r hs
+        refine ⟨F, R, old, rfl, ho, by rw [← h.1, hr], fun hv => ?_⟩
+        rw [← h.1, hr]
+        have := (spec_fields fts _ (List.mem_of_getElem? hf)).none_iff old v hwo hv
+        simp only [] at this
+        rw [← this]
+        cases F.diff old v <;> simp
+
+/-- any sequence of setter calls (calls for which no setter exists are skipped) : final receiver, returned entries -/
+def runSetters (fields : Fields) : Val → List (Nat × Val) → Val × Entries
+  | x, [] => (x, [])
+  | x, (i, v) :: cs =>
+    match setterCall fields x i v with
+    | some (ret, x') => let r := runSetters fields x' cs; (r.1, ret.toList ++ r.2)
+    | none => runSetters fields x cs
+
+/-- **C15 replay**: applying all returned entries, in order, to ANY value equivalent to the initial one (in particular
+a copy of it) returns normally and yields a value equivalent to the final receiver (the sense of C01/C02) -/
+theorem replay (fts : FieldTys) (calls : List (Nat × Val))
+    (hv : ∀ c ∈ calls, ∀ e, (relFields fts)[c.1]? = some e → e.2.2.wt c.2) :
+    ∀ (x y : Vals), SWT (relFields fts) x → SWT (relFields fts) y → SEquiv (relFields fts) x y →
+      ∃ xf r, (runSetters (semFields fts) (.strct x) calls).1 = .strct xf ∧ SWT (relFields fts) xf ∧
+        sapplyG (semFields fts) 0 y (runSetters (semFields fts) (.strct x) calls).2 = .ok r ∧
+        SWT (relFields fts) r ∧ SEquiv (relFields fts) xf r := by
+  induction calls with
+  | nil => intro x y hx hy he; exact ⟨x, y, rfl, hx, rfl, hy, he⟩
+  | cons c cs ih =>
+    obtain ⟨i, v⟩ := c
+    intro x y hx hy he
+    have hvs : ∀ c ∈ cs, ∀ e, (relFields fts)[c.1]? = some e → e.2.2.wt c.2 := fun c hc => hv c (List.mem_cons_of_mem _ hc)
+    simp only [runSetters]
+    cases hcall : setterCall (semFields fts) (.strct x) i v with
+    | none => exact ih hvs x y hx hy he
+    | some rx =>
+      obtain ⟨ret, x'⟩ := rx
+      obtain ⟨F, R, old, hf, ho, hret, _⟩ := setter_returns_diff_entry fts x hx i v ret x' hcall
+      obtain ⟨vs, e1, e2, _⟩ := setter_stores _ _ i v ret x' hcall
+      simp only [Val.strct.injEq] at e1
+      subst e1
+      subst e2
+      have hwv : R.wt v := hv (i, v) List.mem_cons_self _ hf
+      obtain ⟨_, w1, hwo⟩ := swt_at _ x hx i _ hf
+      rw [ho] at w1; cases w1
+      obtain ⟨fy, hy1, hwy⟩ := swt_at _ y hy i _ hf
+      have hF := spec_fields fts _ (List.mem_of_getElem? hf)
+      have heq : R.equiv old fy := by
+        rcases sequiv_at _ x y he i false F R hf old fy ho hy1 with h | h
+        · cases h
+        · exact h
+      have hx' : SWT (relFields fts) (setAt x i v) := swt_setAt _ x hx i _ hf v hwv
+      cases hd : F.diff old v with
+      | none =>
+        -- nothing returned: the follower stays, and is still equivalent
+        have hpost := hF.stay old v fy hwo hwv hwy heq hd
+        have heq' := hF.post_equiv fy v fy hwy hwv hwy hpost
+        have he' : SEquiv (relFields fts) (setAt x i v) y := by
+          have := sequiv_setAt _ x y he i false F R hf v fy (.inr heq')
+          rwa [setAt_self y i fy hy1] at this
+        obtain ⟨xf, r, a1, a2, a3, a4, a5⟩ := ih hvs (setAt x i v) y hx' hy he'
+        refine ⟨xf, r, a1, a2, ?_, a4, a5⟩
+        simp only [hret, hd, Option.map_none, Option.toList_none, List.nil_append]
+        exact a3
+      | some p =>
+        obtain ⟨r0, f1, f2, f3⟩ := hF.follow old v fy p hwo hwv hwy heq hd
+        have heq' := hF.post_equiv fy v r0 hwy hwv f2 f3
+        have he' : SEquiv (relFields fts) (setAt x i v) (setAt y i r0) := sequiv_setAt _ x y he i false F R hf v r0 (.inr heq')
+        have hy' : SWT (relFields fts) (setAt y i r0) := swt_setAt _ y hy i _ hf r0 f2
+        obtain ⟨xf, r, a1, a2, a3, a4, a5⟩ := ih hvs (setAt x i v) (setAt y i r0) hx' hy' he'
+        refine ⟨xf, r, a1, a2, ?_, a4, a5⟩
+        have hone := sapplyOne_at (relFields fts) 0 y i F R fy r0 p hf hy1 f1
+        simp only [Nat.zero_add, fieldsOf_rel] at hone
+        simp only [hret, hd, Option.map_some, Option.toList_some, List.singleton_append, sapplyG, hone]
+        exact a3
+
+/-- at the level of the trait: replay on a copy of the initial value -/
+theorem replay_on_copy (fts : FieldTys) (x0 : Val) (h0 : (relTy (.struct fts)).wt x0) (calls : List (Nat × Val))
+    (hv : ∀ c ∈ calls, ∀ e, (relFields fts)[c.1]? = some e → e.2.2.wt c.2) :
+    ∃ r, (semTy (.struct fts)).apply x0 (runSetters (semFields fts) x0 calls).2 = .ok r ∧
+      (relTy (.struct fts)).equiv (runSetters (semFields fts) x0 calls).1 r := by
+  simp only [relTy, structRel] at h0
+  obtain ⟨x, rfl, hx⟩ := h0
+  obtain ⟨xf, r, a1, a2, a3, a4, a5⟩ := replay fts calls hv x x hx hx (sequiv_refl _ (spec_fields fts) x hx)
+  refine ⟨.strct r, ?_, ?_⟩
+  · rw [semTy, structSem_apply, a3]; rfl
+  · rw [a1]; exact ⟨xf, r, rfl, rfl, a5⟩
+
 end C15
